@@ -19,7 +19,7 @@ REFERENCES = ["@./sauce{2%cups}\n", "@../x/y{1}\n", "@./a/b/c{}\n", "@@./tomato 
 
 def fraction_docs():
     out = []
-    for v, u, n in itertools.product(["1/3", "2/3", "0.1", "0.3", "1/8", "1 1/2", "0.333", "2-3", "1/3-2/3"], ["cup", "tsp", "tbsp", "oz", "lb", "fl oz", "g", "ml"],
+    for v, u, n in itertools.product(["1/3", "2/3", "0.1", "0.3", "1/8", "1 1/2", "0.333", "2-3", "1/3-2/3", "0", "0/5", "3/2", "0-1"], ["cup", "tsp", "tbsp", "oz", "lb", "fl oz", "g", "ml"],
                                      ["2", ""]):
         meta = f">> servings: {n}\n" if n else ""
         out.append(dict(text=f"{meta}@milk{{{v}%{u}}} @&milk{{{v}%{u}}} ~{{{v}%h}}\n", extbits=3818, conv="bundled", tag="fractions"))
@@ -40,7 +40,7 @@ def check_c15(ctx):
     pin = os.path.join(ctx.work, "sd_in.ndjson")
     pout = os.path.join(ctx.work, "sd_obs.ndjson")
     core.write_ndjson(pin, recs)
-    core.run_harness(ctx, ["serde", "--in", pin, "--out", pout, "--factors", "0.5,3,7,0.3333333333333333,1.1" if quick else "0.5,3,7,0.3333333333333333,1.1,2,10,3.3333333333333335,0.7"])
+    core.run_harness(ctx, ["serde", "--in", pin, "--out", pout, "--factors", "0.5,3,7,0.3333333333333333,1.1,0" if quick else "0.5,3,7,0.3333333333333333,1.1,0,2,10,3.3333333333333335,0.7"])
     obs = core.read_ndjson(pout)
     nrec, bad, _ = core.run_judge(ctx, "Trace_Serde", pout)
     bad.sort(key=lambda b: len(obs[b[0] - 1].get("text", "")))
@@ -81,7 +81,7 @@ def replay_c15(ctx, case):
     pin = os.path.join(ctx.work, "sd_in.ndjson")
     pout = os.path.join(ctx.work, "sd_obs.ndjson")
     core.write_ndjson(pin, [dict(text=c["text"], extbits=c["extbits"], conv=c["conv"])])
-    core.run_harness(ctx, ["serde", "--in", pin, "--out", pout, "--factors", "0.5,3,7,0.3333333333333333,1.1"])
+    core.run_harness(ctx, ["serde", "--in", pin, "--out", pout, "--factors", "0.5,3,7,0.3333333333333333,1.1,0"])
     obs = core.read_ndjson(pout)
     nrec, bad, _ = core.run_judge(ctx, "Trace_Serde", pout)
     for line, names in bad:
